@@ -1,13 +1,88 @@
 (* C13 -- all geometries at once (the inductive type geom): round trip, projection, reported shapes,
    Samples and CUQIarray conversions. *)
 From CV Require Import Base.Tac Base.Cmp Base.LinAlg Base.QcLin Model.C13_Geom Model.C13_Float
-     Proofs.C13_Lists Proofs.C13_Index Proofs.C13_Geom Proofs.C13_Step.
+     Proofs.C13_Lists Proofs.C13_Index Proofs.C13_Geom Proofs.C13_Step Proofs.C13_MatMap.
 From Coq Require Import QArith Qcanon.
 
 Definition g_par_dim (g : geom) : nat := prodn (g_par_shape g).
 
 Lemma g_par_shape_1d g : g_par_shape g = [g_par_dim g].
-Proof. unfold g_par_dim. induction g; cbn [g_par_shape]; try (cbn [prodn fold_right]; rewrite Nat.mul_1_r; reflexivity). exact IHg. Qed.
+Proof. unfold g_par_dim. induction g; cbn [g_par_shape]; try (cbn [prodn fold_right]; rewrite Nat.mul_1_r; reflexivity); exact IHg. Qed.
+
+(* ---------------- reported shapes ---------------- *)
+Fixpoint fshape (g : geom) : list nat :=
+  match g with
+  | GCont1D n | GDiscrete n => [n]
+  | GCont2D n1 n2 => [n1; n2]
+  | GImage r c _ v => if v then [(r * c)%nat] else [r; c]
+  | GMapped g' _ _ => fshape g'
+  | GMappedLin _ M _ => [length M]      (* the shape of what the map returns *)
+  | GKL N _ _ _ _ _ => [N]
+  | GStep N _ _ => [N]
+  end.
+
+(* the guard: no singleton axis that squeeze() would remove *)
+Fixpoint g_shape_ok (g : geom) : Prop :=
+  match g with
+  | GCont1D _ | GDiscrete _ => True
+  | GCont2D n1 n2 => (2 <= n1)%nat /\ (2 <= n2)%nat
+  | GImage r c _ _ => (0 < r * c)%nat
+  | GMapped g' _ _ => g_shape_ok g'
+  | GMappedLin g' M _ => g_shape_ok g' /\ fshape g' = [mat_cols M]     (* M @ f is defined for the wrapped function values *)
+  | GKL N nm _ _ _ idstM => (1 <= kl_modes N nm)%nat /\ (2 <= N)%nat /\ length idstM = N
+  | GStep N _ _ => (N <> 1)%nat
+  end.
+
+Lemma kl_col_length idst N coefs tau p : (forall x, length x = N -> length (idst x) = N) -> (length p <= N)%nat ->
+  length (kl_par2fun_col idst N coefs tau p) = N.
+Proof.
+  intros Hi Hp. unfold kl_par2fun_col. rewrite map_length. apply Hi.
+  unfold pad_to. rewrite app_length, repeat_length. pose proof (map2_length (fun c x => (c * x / tau)%Qc) coefs p). lia.
+Qed.
+
+
+(* geometries whose function values are vectors (one axis) and whose maps act on the columns of a batch *)
+Fixpoint g_is1d (g : geom) : Prop :=
+  match g with
+  | GCont1D _ | GDiscrete _ | GKL _ _ _ _ _ _ | GStep _ _ _ => True
+  | GMapped g' _ _ | GMappedLin g' _ _ => g_is1d g'
+  | GCont2D _ _ | GImage _ _ _ _ => False
+  end.
+Definition fdim (g : geom) : nat := prodn (fshape g).
+
+Lemma fshape_1d g : g_is1d g -> fshape g = [fdim g].
+Proof.
+  unfold fdim. induction g; cbn [g_is1d fshape]; intros H; try contradiction;
+    try (cbn [prodn fold_right]; rewrite Nat.mul_1_r; reflexivity); apply IHg; exact H.
+Qed.
+
+(* shapes on BATCHES: par2fun of k parameter columns has k function columns of the reported fun_dim *)
+Theorem g_par2fun_vb g : g_is1d g -> g_shape_ok g -> forall k (a b : arr Qc),
+  shp a = vb_shape (g_par_dim g) k -> length (dat a) = (g_par_dim g * k)%nat -> g_par2fun g a = Some b ->
+  shp b = vb_shape (fdim g) k /\ length (dat b) = (fdim g * k)%nat.
+Proof.
+  induction g as [n|n|n1 n2|r c o v|g IH fm fi|g IH M Mi|N nm coefs tau dstM idstM|N idx pr]; intros H1 Hok k a b Hs Hl Hb;
+    unfold g_par_dim, fdim in *; cbn [g_is1d g_par_shape g_par2fun fshape g_shape_ok] in *; try contradiction.
+  - inversion Hb; subst b. split; assumption.
+  - inversion Hb; subst b. split; assumption.
+  - destruct (g_par2fun g a) as [b'|] eqn:Eb; [|discriminate]. cbn [option_map] in Hb. inversion Hb; subst b.
+    unfold arr_map. cbn [shp dat]. rewrite map_length. apply (IH H1 Hok k a b'); assumption.
+  - destruct Hok as [Hok HM]. destruct (g_par2fun g a) as [b'|] eqn:Eb; [|discriminate]. cbn [obind] in Hb.
+    destruct (IH H1 Hok k a b' Hs Hl Eb) as [Sb Lb]. rewrite HM in Sb, Lb.
+    replace (prodn [mat_cols M]) with (mat_cols M) in Sb, Lb by (cbn; lia).
+    rewrite (matmap_vb M (mat_cols M) k b' eq_refl Sb Lb) in Hb. inversion Hb; subst b. cbn [shp dat].
+    replace (prodn [length M]) with (length M) by (cbn; lia).
+    split; [reflexivity|]. rewrite of_cols_length, map_length, cols_of_length. reflexivity.
+  - destruct Hok as [Hm [HN Hil]].
+    replace (prodn [kl_modes N nm]) with (kl_modes N nm) in Hs, Hl by (cbn; lia).
+    rewrite kl_par2fun_colwise in Hb by lia. rewrite (colwise_eq N (kl_modes N nm) _ k) in Hb by (try assumption; lia).
+    inversion Hb; subst b. cbn [shp dat]. replace (prodn [N]) with N by (cbn; lia).
+    split; [reflexivity|]. rewrite of_cols_length, map_length, cols_of_length. reflexivity.
+  - replace (prodn [length idx]) with (length idx) in Hs, Hl by (cbn; lia).
+    rewrite step_par2fun_colwise in Hb. rewrite (colwise_eq N (length idx) _ k) in Hb by assumption.
+    inversion Hb; subst b. cbn [shp dat]. replace (prodn [N]) with N by (cbn; lia).
+    split; [reflexivity|]. rewrite of_cols_length, map_length, cols_of_length. reflexivity.
+Qed.
 
 (* the exact guard of the round trip: the complement of the refuted classes (singleton squeezes, broken step
    partitions), plus what is needed for an inverse to exist at all (imap given, scale non-zero, non-zero KL
@@ -18,6 +93,10 @@ Fixpoint g_ok (g : geom) : Prop :=
   | GCont2D n1 n2 => (2 <= n1 * n2)%nat
   | GImage r c _ _ => (0 < r * c)%nat
   | GMapped g' fm fi => (exists f', fi = Some f' /\ forall x, f' (fm x) = x) /\ g_ok g'
+  | GMappedLin g' M Mi =>      (* a LEFT inverse on vectors of the wrapped function size: R @ (M @ x) = x *)
+      (exists R, Mi = Some R /\ mat_cols R = length M /\ length R = mat_cols M /\
+                 forall x, length x = mat_cols M -> qmatvec R (qmatvec M x) = x) /\
+      g_is1d g' /\ g_shape_ok g' /\ fshape g' = [mat_cols M] /\ g_ok g'
   | GKL N nm coefs tau dstM idstM =>
       (2 <= kl_modes N nm)%nat /\ length coefs = kl_modes N nm /\ Forall (fun c => c <> 0%Qc) coefs /\ tau <> 0%Qc /\
       length idstM = N /\
@@ -27,7 +106,7 @@ Fixpoint g_ok (g : geom) : Prop :=
 
 (* geometries whose maps act on the columns of a batch in BOTH directions (Image2D.fun2par does not) *)
 Fixpoint g_colwise (g : geom) : bool :=
-  match g with GImage _ _ _ v => v | GMapped g' _ _ => g_colwise g' | _ => true end.
+  match g with GImage _ _ _ v => v | GMapped g' _ _ | GMappedLin g' _ _ => g_colwise g' | _ => true end.
 
 (* imap after map, on the values that occur *)
 Lemma arr_map_inv (fm f' : Qc -> Qc) (b : arr Qc) : Forall (fun v => f' (fm v) = v) (dat b) ->
@@ -65,7 +144,7 @@ Theorem g_roundtrip g : forall k (a : arr Qc), g_ok g -> (k = 1%nat \/ g_colwise
   shp a = vb_shape (g_par_dim g) k -> length (dat a) = (g_par_dim g * k)%nat ->
   obind (g_par2fun g a) (g_fun2par g) = Some a.
 Proof.
-  induction g as [n|n|n1 n2|r c o v|g IH fm fi|N nm coefs tau dstM idstM|N idx pr]; intros k a Hok Hk Hs Hl;
+  induction g as [n|n|n1 n2|r c o v|g IH fm fi|g IH M Mi|N nm coefs tau dstM idstM|N idx pr]; intros k a Hok Hk Hs Hl;
     unfold g_par_dim in Hs, Hl; cbn [g_par_shape g_par2fun g_fun2par] in *; try reflexivity.
   - (* Continuous2D *)
     replace (prodn [(n1 * n2)%nat]) with (n1 * n2)%nat in Hs by (cbn; lia).
@@ -78,6 +157,14 @@ Proof.
     destruct Hok as [[f' [-> Hinv]] Hok]. cbn [g_colwise] in Hk. specialize (IH k a Hok Hk Hs Hl).
     destruct (g_par2fun g a) as [b|]; [|discriminate]. cbn [option_map obind] in *.
     rewrite arr_map_inv by (apply Forall_forall; intros v _; apply Hinv). exact IH.
+  - (* MappedGeometry with a matrix map *)
+    destruct Hok as [[R [-> [HR1 [HR2 Hinv]]]] [H1d [Hsh [Hfs Hok]]]]. cbn [g_colwise] in Hk.
+    specialize (IH k a Hok Hk Hs Hl).
+    destruct (g_par2fun g a) as [b|] eqn:Eb; [|discriminate]. cbn [obind] in *.
+    destruct (g_par2fun_vb g H1d Hsh k a b Hs Hl Eb) as [Sb Lb]. unfold fdim in Sb, Lb. rewrite Hfs in Sb, Lb.
+    replace (prodn [mat_cols M]) with (mat_cols M) in Sb, Lb by (cbn; lia).
+    pose proof (matmap_left_inverse M R (mat_cols M) k b eq_refl HR1 HR2 Hinv Sb Lb) as E.
+    destruct (matmap M b) as [c|]; [|discriminate]. cbn [obind] in *. rewrite E. cbn [obind]. exact IH.
   - (* KLExpansion *)
     destruct Hok as [Hm [Hc [Hnz [Ht [Hil Hlaw]]]]].
     replace (prodn [kl_modes N nm]) with (kl_modes N nm) in Hs, Hl by (cbn; lia).
@@ -103,40 +190,12 @@ Theorem g_fun2par_idempotent g k (f p : arr Qc) : g_ok g -> (k = 1%nat \/ g_colw
   obind (obind (g_fun2par g f) (g_par2fun g)) (g_fun2par g) = g_fun2par g f.
 Proof. intros Hok Hk Hf Hs Hl. rewrite Hf. cbn [obind]. apply (g_roundtrip g k p); assumption. Qed.
 
-(* ---------------- reported shapes ---------------- *)
-Fixpoint fshape (g : geom) : list nat :=
-  match g with
-  | GCont1D n | GDiscrete n => [n]
-  | GCont2D n1 n2 => [n1; n2]
-  | GImage r c _ v => if v then [(r * c)%nat] else [r; c]
-  | GMapped g' _ _ => fshape g'
-  | GKL N _ _ _ _ _ => [N]
-  | GStep N _ _ => [N]
-  end.
-
-(* the guard: no singleton axis that squeeze() would remove *)
-Fixpoint g_shape_ok (g : geom) : Prop :=
-  match g with
-  | GCont1D _ | GDiscrete _ => True
-  | GCont2D n1 n2 => (2 <= n1)%nat /\ (2 <= n2)%nat
-  | GImage r c _ _ => (0 < r * c)%nat
-  | GMapped g' _ _ => g_shape_ok g'
-  | GKL N nm _ _ _ idstM => (1 <= kl_modes N nm)%nat /\ (2 <= N)%nat /\ length idstM = N
-  | GStep N _ _ => (N <> 1)%nat
-  end.
-
-Lemma kl_col_length idst N coefs tau p : (forall x, length x = N -> length (idst x) = N) -> (length p <= N)%nat ->
-  length (kl_par2fun_col idst N coefs tau p) = N.
-Proof.
-  intros Hi Hp. unfold kl_par2fun_col. rewrite map_length. apply Hi.
-  unfold pad_to. rewrite app_length, repeat_length. pose proof (map2_length (fun c x => (c * x / tau)%Qc) coefs p). lia.
-Qed.
-
+(* ---------------- reported shapes (theorems) ---------------- *)
 (* par2fun of a parameter vector of the reported par_shape has the reported fun_shape *)
 Theorem g_par2fun_shape g : forall (a : arr Qc), g_shape_ok g -> shp a = g_par_shape g -> length (dat a) = g_par_dim g ->
   exists b, g_par2fun g a = Some b /\ shp b = fshape g /\ length (dat b) = prodn (fshape g).
 Proof.
-  induction g as [n|n|n1 n2|r c o v|g IH fm fi|N nm coefs tau dstM idstM|N idx pr]; intros a Hok Hs Hl;
+  induction g as [n|n|n1 n2|r c o v|g IH fm fi|g IH M Mi|N nm coefs tau dstM idstM|N idx pr]; intros a Hok Hs Hl;
     unfold g_par_dim in Hl; cbn [g_par_shape g_par2fun fshape g_shape_ok] in *.
   - exists a. rewrite Hs. repeat split; assumption.
   - exists a. rewrite Hs. repeat split; assumption.
@@ -150,6 +209,9 @@ Proof.
       destruct o; [exact Hl|]. rewrite from_F_length. cbn; lia.
   - destruct (IH a Hok Hs Hl) as [b [E1 [E2 E3]]]. rewrite E1. cbn [option_map].
     eexists. split; [reflexivity|]. unfold arr_map. cbn [shp dat]. rewrite map_length. split; assumption.
+  - destruct Hok as [Hok HM]. destruct (IH a Hok Hs Hl) as [b [E1 [E2 E3]]]. rewrite E1. cbn [obind].
+    rewrite matmap_vec by (rewrite E2; exact HM). eexists. split; [reflexivity|]. split; [reflexivity|]. cbn [dat].
+    rewrite qmatvec_length. cbn [prodn fold_right]. rewrite Nat.mul_1_r. reflexivity.
   - destruct Hok as [Hm [HN Hil]].
     replace (prodn [kl_modes N nm]) with (kl_modes N nm) in Hl by (cbn; lia).
     assert (Hidst : forall x, length x = N -> length (qmatvec idstM x) = N) by (intros x _; unfold qmatvec; rewrite matvec_length; exact Hil).
@@ -169,22 +231,25 @@ Proof. unfold ones. cbn [shp dat]. rewrite repeat_length. split; reflexivity. Qe
 (* fun_shape (declared, or inferred from par2fun(ones) for MappedGeometry) is the shape par2fun produces *)
 Theorem g_fun_shape_eq g : g_shape_ok g -> g_fun_shape g = Some (fshape g).
 Proof.
-  intros Hok. destruct g; cbn [g_fun_shape fshape]; try reflexivity.
-  pose proof (ones_ok [prodn (g_par_shape (GMapped g fm fi))]) as [O1 O2].
-  destruct (g_par2fun_shape (GMapped g fm fi) (ones [prodn (g_par_shape (GMapped g fm fi))])) as [b [E1 [E2 E3]]].
-  - exact Hok.
-  - rewrite O1. symmetry. apply g_par_shape_1d.
-  - rewrite O2. unfold g_par_dim. cbn; lia.
-  - rewrite E1. cbn [option_map]. rewrite E2. reflexivity.
+  intros Hok.
+  assert (Hgen : forall g0, g_shape_ok g0 -> option_map shp (g_par2fun g0 (ones [prodn (g_par_shape g0)])) = Some (fshape g0)).
+  { intros g0 H0. pose proof (ones_ok [prodn (g_par_shape g0)]) as [O1 O2].
+    destruct (g_par2fun_shape g0 (ones [prodn (g_par_shape g0)])) as [b [E1 [E2 E3]]].
+    - exact H0.
+    - rewrite O1. symmetry. apply g_par_shape_1d.
+    - rewrite O2. unfold g_par_dim. cbn; lia.
+    - rewrite E1. cbn [option_map]. rewrite E2. reflexivity. }
+  destruct g; cbn [g_fun_shape]; try reflexivity; apply Hgen; exact Hok.
 Qed.
 
 (* fun2vec / vec2fun are the identity when the function shape is one-dimensional *)
-Lemma g_vec2fun_1d g (b : arr Qc) : (length (fshape g) <= 1)%nat -> g_vec2fun g b = Some b.
+Lemma g_vec2fun_1d g (b : arr Qc) : g_shape_ok g -> (length (fshape g) <= 1)%nat -> g_vec2fun g b = Some b.
 Proof.
-  induction g; cbn [fshape g_vec2fun]; intros H; try reflexivity.
+  induction g; cbn [fshape g_vec2fun g_shape_ok]; intros Hok H; try reflexivity.
   - cbn in H. lia.
   - destruct visual; [reflexivity | cbn in H; lia].
-  - apply IHg. exact H.
+  - apply IHg; assumption.
+  - destruct Hok as [Hok HM]. apply IHg; [exact Hok | rewrite HM; cbn; lia].
 Qed.
 
 (* Image2D: vec2fun / fun2vec are mutually inverse (single image) *)
@@ -269,7 +334,7 @@ Proof.
   intros Hok Hsh p Hp.
   destruct (g_par2fun_shape g (mkArr [g_par_dim g] p)) as [b [E1 [E2 E3]]]; cbn [shp dat]; try assumption.
   - symmetry. apply g_par_shape_1d.
-  - exists b. split; [exact E1|]. split; [exact E2|]. split; [exact E3|]. split; [|intros H; apply g_vec2fun_1d; exact H].
+  - exists b. split; [exact E1|]. split; [exact E2|]. split; [exact E3|]. split; [|intros H; apply g_vec2fun_1d; assumption].
     pose proof (g_roundtrip g 1 (mkArr [g_par_dim g] p) Hok (or_introl eq_refl)) as R. cbn [shp dat] in R.
     rewrite E1 in R. cbn [obind] in R. apply R; [reflexivity | lia].
 Qed.
